@@ -181,6 +181,48 @@ fn cpr_cases(tier: Tier) -> Vec<((bool, u32, u32), (bool, u32, u32))> {
     }
     v.push(((false, 1, 2), (false, 3, 4)));
     v.push(((true, 1, 2), (true, 3, 4)));
+    // ties of the zone-index roundings: pairs whose rounding argument 59*y0 - 60*y1 (latitude index j) or
+    // (NL-1)*x0 - NL*x1 (longitude index m) is exactly a half-integer, positive and negative - the inputs on which
+    // floor(x + 0.5), round() and round-half-even differ (std and libm need not implement the same one)
+    const HALF: i64 = 65536;
+    const FULL: i64 = 131072;
+    let inv = |a: i64, m: i64| (1..m).find(|x| (a * x) % m == 1).unwrap_or(1);
+    let inv15 = inv(15, 32768);
+    let ystep = if tier.thorough() { 4 } else { 64 };
+    let mut ye = 0i64;
+    while ye < FULL {
+        // 60*yo = 59*ye - HALF (mod FULL), ye a multiple of 4  =>  15*yo = (59*ye - HALF)/4 (mod 32768)
+        let rhs = ((59 * ye - HALF) / 4).rem_euclid(32768);
+        let y0 = (rhs * inv15).rem_euclid(32768);
+        for i in 0..4 {
+            let yo = y0 + i * 32768;
+            let xe = ((ye * 131 + yo * 17) % FULL) as u32;
+            let xo = ((ye * 37 + yo * 251) % FULL) as u32;
+            v.push(((false, ye as u32, xe), (true, yo as u32, xo)));
+            v.push(((true, yo as u32, xo), (false, ye as u32, xe)));
+        }
+        ye += ystep;
+    }
+    for (lat, nl) in [(0.0004f64, 59i64), (53.3, 35), (86.9, 2), (-30.2, 51)] {
+        let (ye, _) = crate::cprref::encode(lat, 0.0, false);
+        let (yo, _) = crate::cprref::encode(lat, 0.0, true);
+        let xstep = if tier.thorough() { 1 } else { 16 };
+        let (inv_nl, inv_nl1) = (if nl % 2 == 1 { inv(nl, FULL) } else { 1 }, if nl % 2 == 0 { inv(nl - 1, FULL) } else { 1 });
+        let mut x = 0i64;
+        while x < FULL {
+            // (nl-1)*xe - nl*xo = HALF (mod FULL): solve for the operand with the odd coefficient
+            let (xe, xo) = if nl % 2 == 1 {
+                let xe = x;
+                (xe, (((nl - 1) * xe - HALF).rem_euclid(FULL) * inv_nl).rem_euclid(FULL))
+            } else {
+                let xo = x;
+                (((nl * xo + HALF).rem_euclid(FULL) * inv_nl1).rem_euclid(FULL), xo)
+            };
+            v.push(((false, ye, xe as u32), (true, yo, xo as u32)));
+            v.push(((true, yo, xo as u32), (false, ye, xe as u32)));
+            x += xstep;
+        }
+    }
     v
 }
 
@@ -276,6 +318,35 @@ pub fn run(tier: Tier, show: Option<usize>) -> (Vec<Section>, Option<String>) {
         }
         base += n;
         sections.push(Section { name: format!("tracker{k}"), hashes });
+    }
+    // long periodic histories: every word of period <= 3 over two positions x both parities, repeated to 600 events
+    // (track lengths of several hundred entries: a capacity bound in one configuration shows only here)
+    {
+        let rx = (35.0, -80.0);
+        let alpha = crate::alpha::alphabet_c14_longtrack(rx);
+        let n = alpha.len();
+        let mut words: Vec<Vec<usize>> = vec![];
+        for p in 1..=3usize {
+            for code in 0..n.pow(p as u32) {
+                words.push((0..p).map(|i| (code / n.pow(i as u32)) % n).collect());
+            }
+        }
+        let reps = if tier.thorough() { 1500 } else { 600 };
+        let hashes: Vec<u64> = words
+            .par_iter()
+            .map(|w| {
+                let evs: Vec<&Ev> = (0..reps).map(|i| &alpha[w[i % w.len()]]).collect();
+                fnv(history_record(&evs, rx, 500.0).as_bytes())
+            })
+            .collect();
+        if let Some(i) = show {
+            if i >= base && i < base + words.len() {
+                let w = &words[i - base];
+                let evs: Vec<&Ev> = (0..reps).map(|i| &alpha[w[i % w.len()]]).collect();
+                shown = Some(format!("periodic word [{}] x {reps} events\n{}", w.iter().map(|j| alpha[*j].name()).collect::<Vec<_>>().join(" ; "), history_record(&evs, rx, 500.0)));
+            }
+        }
+        sections.push(Section { name: "tracker-long".into(), hashes });
     }
     (sections, shown)
 }
